@@ -70,7 +70,7 @@ Init ==
     \E qe \in Sample(g \in ExhGraphs /\ oe /\ ~ne, [CellsE(g, oe) -> QE]) :
       \E qn \in (IF ne THEN Sample(FALSE, [CellsN(g, oe) -> QN]) ELSE {[x \in CellsN(g, oe) |-> 0]}) :
         /\ I = MkInst(g, oe, qe, qn, MoveDefs[mv])
-        /\ cf = [onlyEdges |-> oe, ne |-> ne, W |-> w, neLen |-> -1, neMax |-> 100, secondOrder |-> FALSE,
+        /\ cf = [onlyEdges |-> oe, ne |-> ne, W |-> w, neLen |-> -1, neMax |-> 100, secondOrder |-> FALSE, slack |-> 0, tables |-> TRUE,
                  maxDist |-> CutDefs[cut].maxDist, maxDistInit |-> CutDefs[cut].maxDistInit,
                  minlp |-> CutDefs[cut].minlp]
         /\ M = NewMatcher /\ R = [path |-> << >>, idx |-> 0, early |-> -1] /\ hist = << >>
